@@ -23,6 +23,24 @@ CHECKS = {
  "C29": ("module-family", MODULE_TECH, "decoded function/local/global/memory name maps are read through the output's own index->token map and compared with the expected partial name map of the Ideal state at every encode", "DESIGN.md 6 C29"),
 }
 
+LOWER_TECH = ("TLA+ model checking: MC_Lower.tla enumerates every well-nested function body up to the bound with every "
+              "applicable instrumentation plan; each case is instrumented and encoded by the real library (replay); "
+              "LowerTrace.tla validates the result: exact splice for C15/C21, and EXECUTION of the lowered body by the "
+              "Exec.tla semantics on every decision/trap path in lock-step with the ideal probe semantics "
+              "(ProbeIdeal.tla) on the original body for C16-C20")
+LOWER = {
+ "C15": "every plan of before/after/alternate/removal injections (1-2 entries exhaustive on small bodies, up to 4 on seeded random larger ones, four API paths): the decoded output body must equal ProbeIdeal!Splice exactly, locals unchanged",
+ "C16": "for plans of neutral probes in all non-replacing modes the lowered body must validate and, on every explored decision/trap path (loops bounded by 2 back-edges), produce the same sequence of original effects, decisions, return value and trap as the original body; before/after probes must fire at the positional moments",
+ "C17": "function entry/exit probes: the ideal machine fires entry once before the first original event and exit before ret however reached (fall-through, return, branch to the function label) and before unreachable, never when an op traps; compared as event logs on every path; arity-1 results compared by value",
+ "C18": "block-entry probes on block/loop/if/else: ideal fires on entering the body/arm incl. every loop back-edge; compared on every path",
+ "C19": "block-exit probes: ideal fires when the body falls through to its own end (if: then-arm to its else/end), never on branches; bodies include constructs nested in if-arms",
+ "C20": "semantic-after on block/if/else and on br/br_if/br_table with non-loop targets: ideal fires on arrival after the construct / once per executed branch; compared on every path",
+ "C21": "block-alternate on block/loop/if/else (with and without replacement code, with before/after elsewhere): decoded output must equal ProbeIdeal!Splice (region removed, replacement in place)",
+ "C22": "every accepted special-mode injection through ModuleIterator (current location and inject_at) and FunctionModifier (location and inject_at) must leave its probe in the encoded body and no 'BUG:' record in the log",
+}
+for k, v in LOWER.items():
+    CHECKS[k] = ("lowering-family", LOWER_TECH, v, "DESIGN.md 6 %s, 4.3, App. B.2" % k)
+
 checks = []
 for p in props:
     if p in CHECKS:
@@ -49,7 +67,9 @@ m = {"version": 1,
                "source_commits": [], "add_only": True},
      "engines": [
         {"name": "module-family", "path": "lib/fam_module.py", "serves_properties": [p for p in props if p in CHECKS and CHECKS[p][0] == "module-family"],
-         "kind_free_text": "TLC (MC_Module.tla generator over ModuleIdeal.tla) -> Rust harness replay on the real wirm API -> TLC trace validation (ModuleTrace.tla)"}],
+         "kind_free_text": "TLC (MC_Module.tla generator over ModuleIdeal.tla) -> Rust harness replay on the real wirm API -> TLC trace validation (ModuleTrace.tla)"},
+        {"name": "lowering-family", "path": "lib/fam_lower.py", "serves_properties": [p for p in props if p in CHECKS and CHECKS[p][0] == "lowering-family"] + ["C04", "C05"],
+         "kind_free_text": "TLC (MC_Lower.tla generator) + seeded random generator -> real injection APIs + encode -> TLC as execution engine (LowerTrace.tla over Exec.tla / ProbeIdeal.tla)"}],
      "checks": checks,
      "not_applicable": na,
      "notes": "All checks share one stage cache per family keyed by the hash of /repo/src + Cargo files and of /verif's specs/harness, so the first check of a family pays for the campaign. fix: commits in /repo: " + " ".join(fix_commits)}
